@@ -25,6 +25,7 @@ type vCell struct {
 	InBuf  int    `json:"inbuf"`
 	Need   string `json:"need"`
 	Rep    string `json:"rep"`
+	Hist   string `json:"hist"`
 	// results
 	Have      int    `json:"have"`
 	N         int    `json:"n"`
@@ -129,6 +130,14 @@ func (e *vAfterEnv) runCell(cell *vCell) {
 		syscall.Write(peer, buf)
 		if !e.pumpUntil(func() bool { return c.inputBuffer.Len() == cell.InBuf }) {
 			cell.Out, cell.Detail = "setup", "input did not arrive"
+			return
+		}
+	}
+	if cell.Hist == "timedout" {
+		// a read timeout is configured and one read has already timed out before the close
+		c.SetReadTimeout(2 * time.Millisecond)
+		if _, err := c.Next(cell.InBuf + 1); !errors.Is(err, ErrReadTimeout) {
+			cell.Out, cell.Detail = "setup", fmt.Sprintf("expected a read timeout, got %v", err)
 			return
 		}
 	}
